@@ -3,9 +3,11 @@ package harness
 import (
 	"context"
 	"encoding/json"
+	"flag"
 	"fmt"
 	"net"
 	"reflect"
+	"strconv"
 	"testing"
 
 	"github.com/facebookincubator/tacquito/cmds/server/config"
@@ -317,22 +319,22 @@ func classifyC16(c c16Case, labels []string) {
 }
 
 func TestC16(t *testing.T) {
+	// the live variant runs on every k-th case so that at most ~400 Loaders (one parked goroutine
+	// each) are created per process whatever the case count is
+	k := 1
+	if f := flag.Lookup("rapid.checks"); f != nil {
+		if n, err := strconv.Atoi(f.Value.String()); err == nil && n > 400 {
+			k = (n + 399) / 400
+		}
+	}
+	n := 0
 	rapid.Check(t, func(rt *rapid.T) {
 		c, labels := genC16(rt)
 		runC16(rt, c)
-		classifyC16(c, labels)
-	})
-}
-
-func TestC16Live(t *testing.T) {
-	n := 0
-	rapid.Check(t, func(rt *rapid.T) {
-		if n++; n > 400 {
-			rt.Skip("the live variant is bounded per process: every Loader leaves a goroutine behind")
+		if n++; n%k == 0 {
+			runC16Live(rt, c, nil)
+			ev.Class("live-variant")
 		}
-		c, labels := genC16(rt)
-		ev.Eval()
-		runC16Live(rt, c, nil)
 		classifyC16(c, labels)
 	})
 }
